@@ -21,6 +21,70 @@ fn main() {
         }
         return;
     }
+    if args.len() >= 4 && args[1] == "--fuzz" {
+        // native random execution of every harness body (validation of harness oracles and of
+        // the dependency model: run once against stock bitvec and once against the vendored one)
+        let n: u64 = args[2].parse().unwrap();
+        let mut seed: u64 = args[3].parse().unwrap();
+        let filter = args.get(4).cloned().unwrap_or_default();
+        let mut next = move || {
+            seed ^= seed << 13;
+            seed ^= seed >> 7;
+            seed ^= seed << 17;
+            seed
+        };
+        panic::set_hook(Box::new(|_| {}));
+        let mut total_panics = 0u64;
+        for t in bsv::tables() {
+            for (hname, h) in t.iter() {
+                if !hname.contains(filter.as_str()) {
+                    continue;
+                }
+                let xp = hname.ends_with("_xp");
+                let (mut ok, mut void, mut bad) = (0u64, 0u64, 0u64);
+                let mut first_bad = String::new();
+                for _ in 0..n {
+                    let mut input: Vec<Vec<u8>> = Vec::new();
+                    for _ in 0..24 {
+                        let r = next();
+                        let v: u128 = match r % 8 {
+                            0 | 1 | 2 => (next() % 70) as u128,
+                            3 => (next() % 6) as u128,
+                            4 => (next() % 300) as u128,
+                            5 => next() as u128,
+                            _ => ((next() as u128) << 64) | next() as u128,
+                        };
+                        input.push(v.to_le_bytes().to_vec());
+                    }
+                    let shown = input.clone();
+                    bsv::vx::set_input(input);
+                    let f = *h;
+                    match panic::catch_unwind(f) {
+                        Ok(()) => ok += 1,
+                        Err(e) => {
+                            if e.downcast_ref::<bsv::vx::AssumeFailed>().is_some() {
+                                void += 1;
+                            } else {
+                                let msg = if let Some(s) = e.downcast_ref::<&str>() { s.to_string() } else if let Some(s) = e.downcast_ref::<String>() { s.clone() } else { String::new() };
+                                let expected = xp && !msg.contains("MARKER");
+                                if expected {
+                                    ok += 1;
+                                } else {
+                                    bad += 1;
+                                    if first_bad.is_empty() {
+                                        first_bad = format!("{msg} input={:?}", shown.iter().take(8).map(|v| u128::from_le_bytes(v[..16].try_into().unwrap())).collect::<Vec<_>>());
+                                    }
+                                }
+                            }
+                        }
+                    }
+                }
+                total_panics += bad;
+                println!("FUZZ {hname} ok={ok} void={void} bad={bad} {first_bad}");
+            }
+        }
+        std::process::exit(if total_panics > 0 { 10 } else { 0 });
+    }
     let name = &args[1];
     let input: Vec<Vec<u8>> = if args.len() > 2 && !args[2].is_empty() {
         args[2].split(',').map(unhex).collect()
